@@ -306,8 +306,23 @@ Inductive res (A : Type) :=
 | Decline.                 (* outside the modelled fragment *)
 Arguments Ok {A}. Arguments Exn {A}. Arguments Fuel {A}. Arguments Decline {A}.
 
+(* completion records (8.9): type, value (None = empty), target *)
 Inductive compl :=
-| QNormal | QBreak (l : label) | QContinue (l : label) | QReturn (v : val).
+| QNormal (v : option val) | QBreak (l : label) (v : option val) | QContinue (l : label) (v : option val)
+| QReturn (v : val).
+
+Definition cval (c : compl) : option val :=
+  match c with QNormal v | QBreak _ v | QContinue _ v => v | QReturn _ => None end.
+(* 12.1 StatementList step 5-6: an empty value is replaced by the value so far *)
+Definition fill (c : compl) (V : option val) : compl :=
+  match c with
+  | QNormal None => QNormal V
+  | QBreak l None => QBreak l V
+  | QContinue l None => QContinue l V
+  | _ => c
+  end.
+Definition updv (V : option val) (c : compl) : option val :=
+  match cval c with Some v => Some v | None => V end.
 
 Record ctx := mkctx { c_env : nat; c_this : val }.
 
@@ -339,9 +354,9 @@ Inductive task :=
 | TList (c : ctx) (l : list stmt)
 | TCall (f : val) (this : val) (args : list val)
 | TConstruct (f : val) (args : list val)
-| TLoop (c : ctx) (labs : list label) (kind : Z) (test upd : option expr) (body : stmt)
+| TLoop (c : ctx) (labs : list label) (kind : Z) (test upd : option expr) (body : stmt) (V : option val)
        (* kind 0: test, body, update (while/for); the do-while enters at the body (kind 1) *)
-| TForIn (c : ctx) (labs : list label) (x : str) (keys : list str) (obj : nat) (body : stmt)
+| TForIn (c : ctx) (labs : list label) (x : str) (keys : list str) (obj : nat) (body : stmt) (V : option val)
 | TCases (c : ctx) (v : val) (cases : list (option expr * list stmt)) (rest : list (option expr * list stmt)).
 
 Inductive answer :=
@@ -646,7 +661,7 @@ Definition step (t : task) (s : state) : R :=
             let s5 := inst_vars s4 ne ds in
             match self (TList (mkctx ne (to_this this)) body) s5 with
             | Ok s6 (ACompl (QReturn v)) => okv s6 v
-            | Ok s6 (ACompl QNormal) => okv s6 WUndef
+            | Ok s6 (ACompl (QNormal _)) => okv s6 WUndef
             | Ok _ _ => Decline          (* break/continue cannot leave a function *)
             | r => r
             end
@@ -702,43 +717,46 @@ Definition step (t : task) (s : state) : R :=
     end
   | TList c l =>
     match l with
-    | [] => okc s QNormal
+    | [] => okc s (QNormal None)
     | x :: xs => bindc (self (TStmt c [] x) s) (fun s1 cm =>
-                   match cm with QNormal => self (TList c xs) s1 | _ => okc s1 cm end)
+                   match cm with
+                   | QNormal v => bindc (self (TList c xs) s1) (fun s2 cm2 => okc s2 (fill cm2 v))
+                   | _ => okc s1 cm
+                   end)
     end
   | TStmt c labs st =>
     match st with
-    | JExpr e => bindv (self (TExpr c e) s) (fun s1 _ => okc s1 QNormal)
-    | JVar x None => okc s QNormal
-    | JVar x (Some e) => bindv (self (TExpr c e) s) (fun s1 v => okc (assign_var chain_fuel s1 (c_env c) x v) QNormal)
-    | JFunDecl _ _ _ => okc s QNormal
+    | JExpr e => bindv (self (TExpr c e) s) (fun s1 v => okc s1 (QNormal (Some v)))
+    | JVar x None => okc s (QNormal None)
+    | JVar x (Some e) => bindv (self (TExpr c e) s) (fun s1 v => okc (assign_var chain_fuel s1 (c_env c) x v) (QNormal None))
+    | JFunDecl _ _ _ => okc s (QNormal None)
     | JBlock l => self (TList c l) s
     | JIf e a b =>
         bindv (self (TExpr c e) s) (fun s1 v =>
           if truthy v then self (TStmt c [] a) s1
-          else match b with Some b => self (TStmt c [] b) s1 | None => okc s1 QNormal end)
-    | JWhile e body => self (TLoop c (0%nat :: labs) 0 (Some e) None body) s
-    | JDoWhile body e => self (TLoop c (0%nat :: labs) 1 (Some e) None body) s
+          else match b with Some b => self (TStmt c [] b) s1 | None => okc s1 (QNormal None) end)
+    | JWhile e body => self (TLoop c (0%nat :: labs) 0 (Some e) None body None) s
+    | JDoWhile body e => self (TLoop c (0%nat :: labs) 1 (Some e) None body None) s
     | JFor init test upd body =>
         match init with
-        | Some i => bindv (self (TExpr c i) s) (fun s1 _ => self (TLoop c (0%nat :: labs) 0 test upd body) s1)
-        | None => self (TLoop c (0%nat :: labs) 0 test upd body) s
+        | Some i => bindv (self (TExpr c i) s) (fun s1 _ => self (TLoop c (0%nat :: labs) 0 test upd body None) s1)
+        | None => self (TLoop c (0%nat :: labs) 0 test upd body None) s
         end
     | JForIn x o body =>
         bindv (self (TExpr c o) s) (fun s1 vo =>
           match vo with
-          | WUndef | WNull => okc s1 QNormal
-          | WRef l => self (TForIn c (0%nat :: labs) x (forin_keys chain_fuel s1 l []) l body) s1
+          | WUndef | WNull => okc s1 (QNormal None)
+          | WRef l => self (TForIn c (0%nat :: labs) x (forin_keys chain_fuel s1 l []) l body None) s1
           | _ => Decline
           end)
-    | JBreak l => okc s (QBreak l)
-    | JContinue l => okc s (QContinue l)
+    | JBreak l => okc s (QBreak l None)
+    | JContinue l => okc s (QContinue l None)
     | JReturn None => okc s (QReturn WUndef)
     | JReturn (Some e) => bindv (self (TExpr c e) s) (fun s1 v => okc s1 (QReturn v))
     | JLabelled l st1 =>
         bindc (self (TStmt c (l :: labs) st1) s) (fun s1 cm =>
           match cm with
-          | QBreak l' => if Nat.eqb l' l then okc s1 QNormal else okc s1 cm
+          | QBreak l' v => if Nat.eqb l' l then okc s1 (QNormal v) else okc s1 cm
           | _ => okc s1 cm
           end)
     | JThrow e => bindv (self (TExpr c e) s) (fun s1 v => Exn s1 v)
@@ -755,8 +773,8 @@ Definition step (t : task) (s : state) : R :=
         | None => r2
         | Some fl =>
             match r2 with
-            | Ok s2 a => bindc (self (TList c fl) s2) (fun s3 cm => match cm with QNormal => Ok s3 a | _ => okc s3 cm end)
-            | Exn s2 v => bindc (self (TList c fl) s2) (fun s3 cm => match cm with QNormal => Exn s3 v | _ => okc s3 cm end)
+            | Ok s2 a => bindc (self (TList c fl) s2) (fun s3 cm => match cm with QNormal _ => Ok s3 a | _ => okc s3 cm end)
+            | Exn s2 v => bindc (self (TList c fl) s2) (fun s3 cm => match cm with QNormal _ => Exn s3 v | _ => okc s3 cm end)
             | r => r
             end
         end
@@ -764,43 +782,46 @@ Definition step (t : task) (s : state) : R :=
         bindv (self (TExpr c e) s) (fun s1 v =>
           bindc (self (TCases c v cases cases) s1) (fun s2 cm =>
             match cm with
-            | QBreak l => if mem l (0%nat :: labs) then okc s2 QNormal else okc s2 cm
+            | QBreak l v => if mem l (0%nat :: labs) then okc s2 (QNormal v) else okc s2 cm
             | _ => okc s2 cm
             end))
     end
-  | TLoop c labs kind test upd body =>
-    (* kind 0: evaluate the test first; kind 1: run the body first (do-while entry) *)
+  | TLoop c labs kind test upd body V =>
+    (* kind 0: evaluate the test first; kind 1: run the body first (do-while entry).
+       V is the value of the last body execution that produced one (12.6.x) *)
     let after_body (s1 : state) (cm : compl) : R :=
+      let V' := updv V cm in
       let continue_ (s2 : state) : R :=
         match upd with
-        | Some u => bindv (self (TExpr c u) s2) (fun s3 _ => self (TLoop c labs 0 test upd body) s3)
-        | None => self (TLoop c labs 0 test upd body) s2
+        | Some u => bindv (self (TExpr c u) s2) (fun s3 _ => self (TLoop c labs 0 test upd body V') s3)
+        | None => self (TLoop c labs 0 test upd body V') s2
         end in
       match cm with
-      | QNormal => continue_ s1
-      | QBreak l => if mem l labs then okc s1 QNormal else okc s1 cm
-      | QContinue l => if mem l labs then continue_ s1 else okc s1 cm
+      | QNormal _ => continue_ s1
+      | QBreak l _ => if mem l labs then okc s1 (QNormal V') else okc s1 cm
+      | QContinue l _ => if mem l labs then continue_ s1 else okc s1 cm
       | QReturn _ => okc s1 cm
       end in
     if kind =? 1 then bindc (self (TStmt c [] body) s) after_body
     else
       match test with
       | Some e => bindv (self (TExpr c e) s) (fun s1 v =>
-                    if truthy v then bindc (self (TStmt c [] body) s1) after_body else okc s1 QNormal)
+                    if truthy v then bindc (self (TStmt c [] body) s1) after_body else okc s1 (QNormal V))
       | None => bindc (self (TStmt c [] body) s) after_body
       end
-  | TForIn c labs x keys ol body =>
+  | TForIn c labs x keys ol body V =>
     match keys with
-    | [] => okc s QNormal
+    | [] => okc s (QNormal V)
     | k :: ks =>
         (* a property deleted before it is visited is not visited (12.6.4) *)
-        if negb (hasp s ol k) then self (TForIn c labs x ks ol body) s else
+        if negb (hasp s ol k) then self (TForIn c labs x ks ol body V) s else
         let s1 := assign_var chain_fuel s (c_env c) x (WStr k) in
         bindc (self (TStmt c [] body) s1) (fun s2 cm =>
+          let V' := updv V cm in
           match cm with
-          | QNormal => self (TForIn c labs x ks ol body) s2
-          | QBreak l => if mem l labs then okc s2 QNormal else okc s2 cm
-          | QContinue l => if mem l labs then self (TForIn c labs x ks ol body) s2 else okc s2 cm
+          | QNormal _ => self (TForIn c labs x ks ol body V') s2
+          | QBreak l _ => if mem l labs then okc s2 (QNormal V') else okc s2 cm
+          | QContinue l _ => if mem l labs then self (TForIn c labs x ks ol body V') s2 else okc s2 cm
           | QReturn _ => okc s2 cm
           end)
     end
@@ -815,7 +836,7 @@ Definition step (t : task) (s : state) : R :=
         | _ :: cl' => from_default cl'
         end in
     match rest with
-    | [] => match from_default all with Some body => self (TList c body) s | None => okc s QNormal end
+    | [] => match from_default all with Some body => self (TList c body) s | None => okc s (QNormal None) end
     | (None, _) :: rest' => self (TCases c v all rest') s
     | (Some e, b) :: rest' =>
         bindv (self (TExpr c e) s) (fun s1 ve =>
@@ -834,13 +855,15 @@ Fixpoint run (fuel : nat) (t : task) (s : state) : R :=
 (* ---------- whole programs (global code, 10.4.1 + 10.5) ---------- *)
 Inductive outcome := FNormal | FThrew (v : val) | FOutOfFuel | FDeclined.
 
-Definition run_program (fuel : nat) (p : list stmt) : list val * outcome :=
+(* log, outcome, completion value of the program (14: the value of its SourceElements; empty -> undefined) *)
+Definition run_program_cv (fuel : nat) (p : list stmt) : list val * outcome * val :=
   let ds := hoist p in
   let s0 := inst_vars (inst_decls init_state 0%nat ds) 0%nat ds in
   match run fuel (TList (mkctx 0%nat (WRef 0)) p) s0 with
-  | Ok s (ACompl QNormal) => (out s, FNormal)
-  | Ok s _ => (out s, FDeclined)
-  | Exn s v => (out s, FThrew v)
-  | Fuel => ([], FOutOfFuel)
-  | Decline => ([], FDeclined)
+  | Ok s (ACompl (QNormal v)) => (out s, FNormal, match v with Some v => v | None => WUndef end)
+  | Ok s _ => (out s, FDeclined, WUndef)
+  | Exn s v => (out s, FThrew v, WUndef)
+  | Fuel => ([], FOutOfFuel, WUndef)
+  | Decline => ([], FDeclined, WUndef)
   end.
+Definition run_program (fuel : nat) (p : list stmt) : list val * outcome := fst (run_program_cv fuel p).
